@@ -195,6 +195,32 @@ static void l1deep_cb(const unsigned char *s, size_t n, int ntok, void *arg) {
 }
 static void l1deep_shard(long shard, void *arg) { (void)arg; mc_enum_t e = L1E; e.N = L1E.N + 1; e.fn = l1deep_cb; mc_enum_shard(&e, shard); }
 
+/* L1small: DEPTH instead of breadth - all strings of <= 10 (thorough 12) tokens over the six structure classes {a " \ . SP X} (X = U+0416 for mode 6531,
+ * HT for the ASCII modes), NUL-terminated context.  A scanner that carries one hidden bit from one quoted word into a later one needs two quoted
+ * words with white space inside, i.e. nine or ten tokens, before its decision differs. */
+#ifdef C03
+static const mc_tok_t SIGS[] = { MC_TOK("a"), MC_TOK("\""), MC_TOK("\\"), MC_TOK("."), MC_TOK(" "), MC_TOK("\xd0\x96") };
+#else
+static const mc_tok_t SIGS[] = { MC_TOK("a"), MC_TOK("\""), MC_TOK("\\"), MC_TOK("."), MC_TOK(" "), MC_TOK("\t") };
+#endif
+static int C_L1S;
+static void l1small_cb(const unsigned char *s, size_t n, int ntok, void *arg) {
+    (void)arg; (void)ntok; if (n == 0) return;
+    char buf[96]; memcpy(buf, s, n); buf[n] = 0;
+    for (int mi = 0; mi < NMODES; mi++) {
+        int mode = MODES[mi];
+        int exp = ref_local(s, n, mode, REF_OPTS);
+        int rc0 = LOCAL[mode](buf, buf + n);
+        MC_ADD(C_EVAL, 1); MC_ADD(C_L1S, 1);
+        if (exp != R_ANY && (rc0 == 0) != (exp == R_ACC)) {
+            char cfg[32]; snprintf(cfg, sizeof cfg, "mode=%s", mode_name(mode));
+            mc_violation("L1", why_of(mode, s, n, exp, rc0, "local"), "", cfg, s, n, "is_%s_local(NUL-terminated): reference %s, library rc=%d", mode_name(mode), exp == R_ACC ? "ACCEPT" : "REJECT", rc0);
+        }
+    }
+}
+static mc_enum_t L1S;
+static void l1small_shard(long shard, void *arg) { (void)arg; mc_enum_t e = L1S; mc_enum_shard(&e, shard); }
+
 /* ---------------- L2 ---------------- */
 typedef struct { int mode, opts; } pctx_t;
 static int p_step(int ps, int b, void *c) {
@@ -378,6 +404,33 @@ static void scalar_shard(long shard, void *arg) {
 #endif
 
 /* ---------------- replay ---------------- */
+/* ---------------- align: the same strings at every start alignment ----------------
+ * A scanner that reads the input a machine word at a time behaves differently depending on where the string starts in memory.  Atom and quoted strings
+ * of 1..48 characters with one deviating byte (high bit, control, special, quote, dot, backslash, space) at every position, placed at each of the 16
+ * start offsets of a 16-byte aligned buffer (NUL-terminated there, nothing else moved); reference verdict. */
+static int C_ALIGN;
+static void align_shard(long shard, void *arg) {
+    (void)arg; int L = (int)shard + 1;
+    static const unsigned char DEV[] = { 0x80, 0xc3, 0xff, '"', '.', ' ', 0x01, '\\', '(', 0x7f };
+    static unsigned char big[256] __attribute__((aligned(16)));
+    for (int quoted = 0; quoted < 2; quoted++) for (int p = -1; p < L; p++) for (unsigned d = 0; d < (p < 0 ? 1 : sizeof DEV); d++) {
+        unsigned char t[64]; size_t n = 0;
+        if (quoted) t[n++] = '"';
+        for (int i = 0; i < L; i++) t[n++] = (i == p) ? DEV[d] : (unsigned char)('a' + i % 26);
+        if (quoted) t[n++] = '"';
+        for (int mi = 0; mi < NMODES; mi++) {
+            int mode = MODES[mi]; int exp = ref_local(t, n, mode, REF_OPTS); if (exp == R_ANY) continue;
+            for (int off = 0; off < 16; off++) {
+                memset(big, 0, sizeof big); memcpy(big + 16 + off, t, n);
+                int rc = LOCAL[mode]((const char *)big + 16 + off, (const char *)big + 16 + off + n); MC_ADD(C_EVAL, 1); MC_ADD(C_ALIGN, 1);
+                if ((rc == 0) != (exp == R_ACC)) { char cfg[64]; snprintf(cfg, sizeof cfg, "mode=%s align=%d", mode_name(mode), off);
+                    char w[96]; snprintf(w, sizeof w, "align:%s:%s-at-start-offset-%d", mode_name(mode), exp == R_ACC ? "rejects-valid" : "accepts-invalid", off);
+                    mc_violation("align", w, "", cfg, t, n, "is_%s_local at start address = 16k+%d: reference %s, library rc=%d", mode_name(mode), off, exp == R_ACC ? "ACCEPT" : "REJECT", rc); }
+            }
+        }
+    }
+}
+
 /* ---------------- huge: local parts of 2^8 .. 2^32 characters ----------------
  * The local validators have no length limit of their own (64 octets is the address validators' business, C01), so their verdict on a very long
  * range is defined by the grammar alone.  Shapes with a structural feature at the START (2^31 and more bytes follow it) or at the END (2^31 and
@@ -441,7 +494,10 @@ static int do_replay(void) {
     if (mc_load_replay(mc_replay, &r)) return 2;
     int mode = mode_of_name(mc_cfg_int(r.cfg, "mode", 5321));
     mc_replay_hit = 0;
-    if (mc_cfg_int(r.cfg, "huge", 0)) { size_t L = (size_t)strtoull(strstr(r.cfg, "len=") + 4, NULL, 10); huge_alloc(L); huge_case((int)mc_cfg_int(r.cfg, "shape", 0), L); }
+    if (!strcmp(r.sub, "align")) { static unsigned char big[256] __attribute__((aligned(16))); int off = (int)mc_cfg_int(r.cfg, "align", 0); memcpy(big + 16 + off, r.in, (size_t)r.len);
+        int exp = ref_local(r.in, (size_t)r.len, mode, REF_OPTS); int rc = LOCAL[mode]((const char *)big + 16 + off, (const char *)big + 16 + off + r.len);
+        if (exp != R_ANY && (rc == 0) != (exp == R_ACC)) mc_replay_hit++; }
+    else if (mc_cfg_int(r.cfg, "huge", 0)) { size_t L = (size_t)strtoull(strstr(r.cfg, "len=") + 4, NULL, 10); huge_alloc(L); huge_case((int)mc_cfg_int(r.cfg, "shape", 0), L); }
     else
     check_local(r.sub, mode, r.in, (size_t)r.len);
     printf("replay %s: %s\n", mc_replay, mc_replay_hit ? "VIOLATION reproduced" : "no violation");
@@ -453,7 +509,7 @@ int main(int argc, char **argv) {
     C_L1 = mc_counter("L1_strings_x_modes"); C_L2 = mc_counter("L2_strings"); C_L2P = mc_counter("L2_pair_strings");
     C_L2W = mc_counter("L2_Wmethod_strings"); L2M = mc_thorough ? 3 : 2;
     C_L3 = mc_counter("L3_strings"); C_L1D = mc_counter("L1_deep_strings_x_modes"); C_U = mc_counter("utf8_sweep_strings");
-    C_ACC = mc_counter("ref_accept"); C_REJ = mc_counter("ref_reject"); C_ANY = mc_counter("ref_any"); C_IMPLACC = mc_counter("impl_accept"); C_HUGE = mc_counter("huge_length_calls");
+    C_ACC = mc_counter("ref_accept"); C_REJ = mc_counter("ref_reject"); C_ANY = mc_counter("ref_any"); C_IMPLACC = mc_counter("impl_accept"); C_HUGE = mc_counter("huge_length_calls"); C_L1S = mc_counter("L1small_strings_x_modes"); C_ALIGN = mc_counter("alignment_calls");
 #ifdef C03
     C_SCALARS = mc_counter("scalar_x_surrounding_strings");
 #endif
@@ -490,6 +546,7 @@ int main(int argc, char **argv) {
     mc_parallel("every non-ASCII scalar, single and doubled, in 34 surroundings (a.X.b among them)", 0x110000 / 0x1000, scalar_shard, NULL);
     }
 #endif
+    mc_parallel("align: atom / quoted strings of 1..48 characters, one deviating byte at every position, at each of 16 start alignments", 48, align_shard, NULL);
     if (!core) { huge_lengths(); size_t mx = 0; for (int i = 0; i < HUGE_N; i++) if (HUGE_L[i] > mx) mx = HUGE_L[i];
       huge_alloc(mx); char nmh[160]; snprintf(nmh, sizeof nmh, "huge: %d shapes (feature at the start / at the end) x %d lengths k*2^8+d, k*2^16+d%s", NHSH, HUGE_N, mc_thorough ? ", 2^24+d, 2^31+d, 2^32+d" : ", 2^31+5");
       mc_parallel(nmh, (long)HUGE_N * NHSH * NMODES, huge_shard, NULL); munmap(HB, HBCAP); }
@@ -500,6 +557,9 @@ int main(int argc, char **argv) {
         char nm[64]; snprintf(nm, sizeof nm, "L1:all strings of <= %d tokens over %d classes", n1, NSIGC);
         mc_parallel(nm, mc_enum_shards(&L1E), l1_shard, NULL);
     }
+    { memset(&L1S, 0, sizeof L1S); L1S.A = SIGS; L1S.nA = 6; L1S.N = mc_thorough ? 12 : 10; L1S.k = 3; L1S.fn = l1small_cb;
+      char nm[96]; snprintf(nm, sizeof nm, "L1small: all strings of <= %d tokens over the six structure classes, NUL-terminated context", L1S.N);
+      mc_parallel(nm, mc_enum_shards(&L1S), l1small_shard, NULL); }
     if (mc_thorough) {
         char nm[96]; snprintf(nm, sizeof nm, "L1+: all strings of exactly %d tokens, NUL-terminated context", n1 + 1);
         mc_parallel(nm, mc_enum_shards(&L1E), l1deep_shard, NULL);
